@@ -64,6 +64,11 @@ func (t *Track) RecordFrom(inPort drivers.In, ticks MetricTicks, bpm float64) (s
 	t.Add(0, MetaTempo(bpm))
 	var absmillisec int32
 	return midi.ListenTo(inPort, func(msg midi.Message, absms int32) {
+		// only channel messages are recorded: realtime and system common messages
+		// must not appear inside a SMF track and would make the file unreadable
+		if !msg.Is(midi.ChannelMsg) {
+			return
+		}
 		deltams := absms - absmillisec
 		absmillisec = absms
 		delta := ticks.Ticks(bpm, time.Duration(deltams)*time.Millisecond)
